@@ -608,16 +608,15 @@ func c15Main(c *Ctx, r *Report) {
 	fn := c.Func("cmd/zlint", "main")
 	setl := "cmd/zlint.setLints()"
 	n := 0
-	for _, call := range callsTo(fn, "cmd/zlint.doLint") {
-		n++
-		a := call.Common().Args
-		regArg := apath(a[2])
-		ok := regArg == setl+"#0"
-		fileArg := apath(a[0])
-		okFile := fileArg == "os.Stdin" || strings.HasPrefix(fileArg, "os.Open(")
-		r.Check(ok && okFile, "main-wiring", fmt.Sprintf("doLint#%d", n), call.Pos(), "doLint(<stdin|opened file>, format, setLints' registry)", fmt.Sprintf("doLint is called with registry %s and input %s: the selection made by the flags is not what is linted with", regArg, fileArg))
-	}
-	r.Floor("doLint call sites", 1, n)
+	var doLintCalls []ssa.CallInstruction
+	allInstrsDeep(fn, func(in ssa.Instruction) {
+		if ci, ok := in.(ssa.CallInstruction); ok && staticCalleeName(ci.Common()) == "cmd/zlint.doLint" {
+			doLintCalls = append(doLintCalls, ci)
+			c15DoLintCall(r, ci, len(doLintCalls), setl)
+		}
+	})
+	n = len(doLintCalls)
+	r.Floor("doLint call sites", 2, n)
 	// setLints error ⇒ Fatal before anything else; open error ⇒ Fatal
 	outs, abort := Enumerate(fn, SymOpts{Inline: func(*ssa.Function) bool { return false }, NoReturn: isFatal, LoopBound: 1, MaxPaths: 50000})
 	if abort != "" {
@@ -743,4 +742,72 @@ func c15Summary(c *Ctx, r *Report) {
 		}
 	})
 	r.Check(printed >= 2, "summary-counts", "printed value", os.Pos(), fmt.Sprintf("%d cells print resultCount[level]", printed), "the summary tables no longer print resultCount[level]")
+}
+
+func phiName(p *ssa.Phi) string {
+	if p.Comment != "" {
+		return p.Comment
+	}
+	return p.Name()
+}
+
+// loopCarriedDep: v depends (through operands, phis and calls) on a φ at a loop
+// header that really changes from one iteration to the next (other than a range
+// index): returns that φ.
+func loopCarriedDep(v ssa.Value, seen map[ssa.Value]bool) *ssa.Phi {
+	if v == nil || seen[v] || len(seen) > 400 {
+		return nil
+	}
+	seen[v] = true
+	switch x := v.(type) {
+	case *ssa.Parameter:
+		if a, ok := apathSubst[x]; ok {
+			return loopCarriedDep(a, seen)
+		}
+		return nil
+	case *ssa.Const, *ssa.Global, *ssa.Function, *ssa.FreeVar, *ssa.Builtin:
+		return nil
+	case *ssa.Phi:
+		b := x.Block()
+		header := false
+		for i, p := range b.Preds {
+			if b.Dominates(p) && x.Edges[i] != ssa.Value(x) {
+				header = true
+			}
+		}
+		if header && x.Comment != "rangeindex" {
+			return x
+		}
+	}
+	in, ok := v.(ssa.Instruction)
+	if !ok {
+		return nil
+	}
+	for _, op := range in.Operands(nil) {
+		if *op == nil {
+			continue
+		}
+		if p := loopCarriedDep(*op, seen); p != nil {
+			return p
+		}
+	}
+	return nil
+}
+
+// c15DoLintCall checks one (possibly helper-wrapped) call of doLint; evaluated
+// while allInstrsDeep's parameter substitution is in force.
+func c15DoLintCall(r *Report, call ssa.CallInstruction, n int, setl string) {
+	a := call.Common().Args
+	regArg := apath(a[2])
+	ok := regArg == setl+"#0"
+	fileArg := apath(a[0])
+	okFile := fileArg == "os.Stdin" || strings.HasPrefix(fileArg, "os.Open(")
+	r.Check(ok && okFile, "main-wiring", fmt.Sprintf("doLint#%d", n), call.Pos(), "doLint(<stdin|opened file>, format, setLints' registry)", fmt.Sprintf("doLint is called with registry %s and input %s: the selection made by the flags is not what is linted with", regArg, fileArg))
+	// the format a file is decoded with is a function of the -format flag and of that
+	// file's own name: nothing carried over from the files handled before it
+	if phi := loopCarriedDep(a[1], map[ssa.Value]bool{}); phi != nil {
+		r.Bad("main-wiring", fmt.Sprintf("doLint#%d|format-carried", n), call.Pos(), fmt.Sprintf("the input format passed to doLint (%s) depends on %s, a variable carried over from the previous iteration of the loop over the input files: a later file is decoded with a format chosen for an earlier one", trimStr(apath(a[1]), 120), phiName(phi)))
+	} else {
+		r.OK("main-wiring", fmt.Sprintf("doLint#%d|format", n), call.Pos(), false, "format argument does not depend on earlier files")
+	}
 }
